@@ -21,7 +21,10 @@ RULE = (
     "that read one Connect and write the next (transitivity, up to 5 transactions in one simultaneity group); "
     "'broadcast' = one transaction writing 2-4 Connects, each read by 1-2 readers.  Every caller additionally calls 0-2 "
     "methods with ready inputs, drawn from a pool private to its role (a writer and a reader sharing an exclusive callee "
-    "is rightly rejected as unsatisfiable simultaneity).  Optionally a pair of user methods related by simultaneous().  "
+    "is rightly rejected as unsatisfiable simultaneity).  Optionally a pair of user methods related by simultaneous(), and "
+    "optionally a transaction nested in a method body and declared simultaneous with that method, the method being "
+    "reached through a call chain of 1-3 levels guarded by If / enable_call (the method and the nested transaction must "
+    "run in exactly the same valuations).  "
     "All valuations of the ready inputs are enumerated up to 2^10, else 1024 strided ones (data values are a fixed "
     "function of the valuation index).  Oracle = read.run == write.run for every Connect, a.run == b.run for the pair, at "
     "most one caller per side, a transfer only with an enabled caller on both sides; when they run, the reader's result "
@@ -67,7 +70,11 @@ def strategy(draw, tier="quick"):
             c["writers"], c["wrdy"] = [], []
         conns.append(c)
     pair = draw(st.integers(0, 2)) == 0
+    # a transaction nested in a method body and declared simultaneous with that method; the method is reached through
+    # a call chain whose calls may be guarded by If (1) or enable_call (2)
+    nested_sim = [draw(st.integers(0, 2)) for _ in range(draw(st.integers(1, 3)))] if draw(st.integers(0, 2)) == 0 else None
     return dict(
+        nested_sim=nested_sim,
         mode=mode,
         conns=conns,
         mids=[_extras(draw, 1) for _ in range(nconn - 1)] if mode == "chain" else [],
@@ -176,6 +183,43 @@ class D(Elaboratable):
                     self.res[f"bw@{k}"] = Signal(sp["conns"][k]["rw"], name=f"res_bw_{k}")
                     m.d.top_comb += self.res[f"bw@{k}"].eq(self.conn[k].write(m, d=self.arg[f"bw@{k}"]).r)
                 extras("BW", sp["bw"])
+        if sp.get("nested_sim") is not None:
+            chain = sp["nested_sim"]
+            self.ns_probe = Method(name="ns_probe")
+            with self.ns_probe.body(m):
+                pass
+            self.ns_inner = Method(name="ns_inner")
+            for nm_ in ("ns_inner", "ns_nested", "ns_top"):
+                self.rdy[nm_] = Signal(name=f"rdy_{nm_}")
+            self.ns_guards = [Signal(name=f"ns_g{i}") for i, g in enumerate(chain) if g]
+            for i, sg in enumerate(self.ns_guards):
+                self.rdy[f"ns_g{i}"] = sg
+            with self.ns_inner.body(m, ready=self.rdy["ns_inner"]):
+                nst = Transaction(name="ns_nested")
+                with nst.body(m, ready=self.rdy["ns_nested"]):
+                    self.ns_probe(m)
+                self.ns_inner.simultaneous(nst)
+            wrappers = [Method(name=f"ns_w{i}") for i in range(len(chain) - 1)]
+            targets = wrappers + [self.ns_inner]
+            gs = iter(self.ns_guards)
+
+            def ns_call(level):
+                g = chain[level]
+                if g == 0:
+                    targets[level](m)
+                elif g == 1:
+                    with m.If(next(gs)):
+                        targets[level](m)
+                else:
+                    targets[level](m, enable_call=next(gs))
+
+            t = Transaction(name="ns_top")
+            self.trs["ns_top"] = t
+            with t.body(m, ready=self.rdy["ns_top"]):
+                ns_call(0)
+            for i, wm in enumerate(wrappers):
+                with wm.body(m):
+                    ns_call(i + 1)
         if sp["pair"]:
             self.pa = Method(name="pa")
             self.pb = Method(name="pb")
@@ -200,6 +244,8 @@ def run_case(spec) -> Result:
     sp = spec
     n = len(sp["conns"])
     res = Result(labels=[sp["mode"], f"connects{n}"] + (["simultaneous_pair"] if sp["pair"] else []))
+    if sp.get("nested_sim") is not None:
+        res.labels.append("nested_simultaneous" + ("+guarded_chain" if any(sp["nested_sim"]) and len(sp["nested_sim"]) > 1 else ""))
     d = D(spec)
     dm = DependencyManager()
     with DependencyContext(dm):
@@ -281,6 +327,20 @@ def run_case(spec) -> Result:
                 if ctx.get(d.res[w[0]]) != args[r[0]]:
                     out[0] = f"chain: writer {w[0]} got {ctx.get(d.res[w[0]])}, reader {r[0]} passed {args[r[0]]}"
                     return
+            if sp.get("nested_sim") is not None:
+                ir, nr = ctx.get(d.ns_inner.run), ctx.get(d.ns_probe.run)
+                if ir != nr:
+                    out[0] = f"method and its simultaneous nested transaction: method.run={ir}, nested transaction runs={nr}; val={val}"
+                    return
+                gok = all(val[f"ns_g{i}"] for i in range(len(d.ns_guards)))
+                en_all = bool(val["ns_top"] and val["ns_inner"] and val["ns_nested"] and gok)
+                if ir and not en_all:
+                    out[0] = f"nested simultaneous pair runs although a side is not enabled / not called; val={val}"
+                    return
+                if val["ns_top"] and gok and (bool(val["ns_inner"]) != bool(val["ns_nested"])):
+                    st_["onesided"] += 1
+                if ir:
+                    st_["xfer"] += 1
             if sp["pair"]:
                 a, b = ctx.get(d.pa.run), ctx.get(d.pb.run)
                 if a != b:
